@@ -340,7 +340,7 @@ func C12(e *core.Env) int {
 				bad("sibling_isolation", fmt.Sprintf("%s: with opposite-valued siblings exactly one side must fail, exit %d", cellKey, gr.Exit))
 				return
 			}
-			namesProbe := strings.Contains(gr.Stderr, ").Probe(")
+			namesProbe := strings.Contains(gr.Stderr, "Probe(") || strings.Contains(gr.Stderr, "Probe ")
 			if want && namesProbe {
 				bad("precedence", fmt.Sprintf("%s: effective value %q: the probe method failed although only its opposite-valued siblings should", cellKey, eff))
 			} else if !want && !namesProbe {
@@ -618,13 +618,13 @@ func c12Invalid(e *core.Env, rep *core.Report, bin, root string) {
 		named := false
 		switch {
 		case j.want == "cli":
-			named = strings.Contains(gr.Stderr, "command line") && !strings.Contains(gr.Stderr, "input.go:")
+			named = namesCLI(gr.Stderr) && !strings.Contains(gr.Stderr, "input.go:")
 		case j.want == "file":
-			named = strings.Contains(gr.Stderr, "input.go:") && !strings.Contains(gr.Stderr, "command line")
+			named = strings.Contains(gr.Stderr, "input.go:") && !namesCLI(gr.Stderr)
 		case len(j.cli) > 0 && len(j.conv) == 0 && len(j.meth) == 0:
-			named = strings.Contains(gr.Stderr, "command line")
+			named = namesCLI(gr.Stderr)
 		default:
-			named = strings.Contains(gr.Stderr, "input.go:") || strings.Contains(gr.Stderr, "command line")
+			named = strings.Contains(gr.Stderr, "input.go:") || namesCLI(gr.Stderr)
 		}
 		if !named {
 			viols[i] = &core.Viol{Kind: "location_missing", Case: j.name, Summary: fmt.Sprintf("diagnostic for %q at %s level does not name where it was written", j.line, j.level), Detail: det, Dir: dir, Tags: []string{"level:" + j.level}}
@@ -746,4 +746,15 @@ func c12Shared(e *core.Env, rep *core.Report, bin, root string) {
 		rep.NonTrivial(fmt.Sprintf("shared|%s|%s|%s|%v", scs[i].key, scs[i].conv, scs[i].meth, scs[i].first))
 	}
 	rep.Extra["shared_submethod_scenarios"] = len(scs)
+}
+
+// namesCLI: the diagnostic says that the setting was given on the command line (wording is not prescribed).
+func namesCLI(stderr string) bool {
+	l := strings.ToLower(stderr)
+	for _, k := range []string{"command line", "command-line", "commandline", "(-g", "-global", "cli argument", "cli flag"} {
+		if strings.Contains(l, k) {
+			return true
+		}
+	}
+	return false
 }
